@@ -463,7 +463,9 @@ func (g *graph) addBranch(startNode string, branch *GraphBranch, skipData bool) 
 	}
 	branch.idx = len(g.handlerPreBranch[startNode])
 
-	if startNode != START && g.nodes[startNode].executorMeta.component == ComponentOfPassthrough {
+	// infer the type of a passthrough start node only if it is still unknown: a type that was already
+	// inferred (and used to validate other edges) must not be replaced, the branch is checked against it.
+	if startNode != START && g.nodes[startNode].executorMeta.component == ComponentOfPassthrough && g.nodes[startNode].cr.inputType == nil {
 		g.nodes[startNode].cr.inputType = branch.inputType
 		g.nodes[startNode].cr.outputType = branch.inputType
 		g.nodes[startNode].cr.genericHelper = branch.genericHelper.forPredecessorPassthrough()
